@@ -1,6 +1,7 @@
 package main
 
 import (
+	"strings"
 	"encoding/json"
 	"flag"
 	"fmt"
@@ -34,6 +35,7 @@ type Case struct {
 	Fixed    []int    `json:"fixed"` // [] or [w,h]
 	Smap     [][]int  `json:"smap"`  // [] or per node [present,w,h] (optionally ,x,y)
 	Virt     int      `json:"virt"`
+	Bkl      int      `json:"bkl"` // 1..4: WithBrandesKoepfLayout(bkl-1) although the positioner is not Brandes-Koepf
 	Thor     int      `json:"thor"` // <0: library default
 	Seed     int      `json:"seed"`
 	Mon      int      `json:"mon"`
@@ -93,6 +95,11 @@ func buildOptions(c *Case, rec *recorder) (graph.EdgeSlice, map[string]graph.Siz
 		opts = append(opts, autog.WithCycleBreaking(autog.CycleBreakingGreedy), autog.WithNonDeterministicGreedyCycleBreaker())
 	case "dfs":
 		opts = append(opts, autog.WithCycleBreaking(autog.CycleBreakingDepthFirst))
+	case "dfsrand":
+		// the greedy breaker's node-choice option together with the depth-first breaker: it must be ignored
+		opts = append(opts, autog.WithCycleBreaking(autog.CycleBreakingDepthFirst), autog.WithNonDeterministicGreedyCycleBreaker())
+	case "randdfs":
+		opts = append(opts, autog.WithNonDeterministicGreedyCycleBreaker(), autog.WithCycleBreaking(autog.CycleBreakingDepthFirst))
 	case "":
 	default:
 		harnessErr("case %d: unknown p1 %q", c.Case, c.P1)
@@ -170,6 +177,10 @@ func buildOptions(c *Case, rec *recorder) (graph.EdgeSlice, map[string]graph.Siz
 	}
 	if c.Virt == 1 {
 		opts = append(opts, autog.WithOutputVirtualNodes(true))
+	}
+	if c.Bkl > 0 && !strings.HasPrefix(c.P4, "bk") {
+		// a forced Brandes-Koepf layout together with another positioner: it must be ignored
+		opts = append(opts, autog.WithBrandesKoepfLayout(c.Bkl-1))
 	}
 	if c.Thor >= 0 {
 		opts = append(opts, autog.WithNetworkSimplexThoroughness(uint(c.Thor)))
